@@ -76,6 +76,9 @@ struct Ev {
 	uint8_t cprevOk = 1;               // control.previousTransitions() shows what machine.previousTransition() shows
 	uint8_t tmplOk = 1, ctmplOk = 1;   // templated forms (isActive<T>(), stateId<T>()) agree with the id forms: machine / control
 	uint8_t live = 0;   // the machine view below was taken from a constructed, not abandoned instance
+	uint8_t hasLocal = 0;              // localSum is valid (EV_BEGIN / EV_END)
+	uint16_t local = 0;                // EV_CB: the callback counter kept in a data member of the object whose callback this is (after this delivery)
+	uint32_t localSum = 0;             // hash over the data members of every state object, read through access<T>()
 	uint64_t cAct = 0;
 	TrV req, pend, cur;
 	// machine view (EV_CB, EV_BEGIN, EV_END)
@@ -144,7 +147,8 @@ inline uint64_t digest(const Trace& t, int mask) {
 		if (!(mask & DGB_SERIAL) && e.kind == EV_NOTE && (e.method == NOTE_CANARY || e.method == NOTE_BUFEQ || e.method == NOTE_BUFACT)) continue;
 		hmix(h, e.kind); hmix(h, e.inst); hmix(h, e.state); hmix(h, e.method); hmix(h, e.who); hmix(h, e.ctl);
 		hmix(h, e.a); hmix(h, e.b); hmix(h, e.c);
-		if (e.kind == EV_CB) { hmix(h, e.sid); hmix(h, e.ctxOk); hmix(h, e.evtOk); hmix(h, e.cAct); htr(h, e.req); htr(h, e.pend); htr(h, e.cur); }
+		if (e.kind == EV_CB) { hmix(h, e.sid); hmix(h, e.ctxOk); hmix(h, e.evtOk); hmix(h, e.cAct); htr(h, e.req); htr(h, e.pend); htr(h, e.cur); hmix(h, e.local); }
+		if (e.hasLocal) hmix(h, e.localSum);
 		if (e.kind == EV_NOTE && e.method == NOTE_AFTER) htr(h, e.req);
 		if (e.kind == EV_CB || e.kind == EV_BEGIN || e.kind == EV_END || (e.kind == EV_NOTE && e.method == NOTE_AFTER)) {
 			hmix(h, e.mAct); hmix(h, e.mManual); hmix(h, e.mActMask);
